@@ -257,7 +257,7 @@ def run(c):
     c.obligation('valid:simplified-equals-original', not any('simplify' in v[2] for v in c.violations), 'validation', '%d symbolic + %d at sample point' % (nsym, nconc))
     # ---- systematic small-tree enumeration (interaction space of the swap rules), parallel real-code differential
     if c.tier == 'quick':
-        enum_stream(c, 14, (400, 800, 300, 1200))
+        enum_stream(c, 14, (400, 700, 200, 2200))
     else:
         enum_stream(c, 56, (400, 6000, 6000, 30000))
     # ---- (M) the fixed-point driver itself (deep_replace_property) vs its Lean model, + memoisation consequences on real trees
